@@ -79,6 +79,9 @@ inductive AttrKind where
 structure Env where
   importModule : String → ImportOutcome
   getattr : String → String → AttrKind
+  /-- the key under which the (de)serializer registered for a type keeps its payload (`serialize_uuid`: `"value"`);
+  a registration is a matching pair: both sides use this key -/
+  payloadKey : Cls → String := fun _ => "value"
 
 /-- the documented `JSONSerializationError` subclasses raised by tag resolution -/
 inductive DocErr where
@@ -268,23 +271,25 @@ def trigger (q : Quirks) (env : Env) (tag : Option Json) : Bool :=
 mutual
 /-- module-level `to_json(obj)`; for `SubclassJSONSerializer` instances `obj.to_json()` = the tag written by the base
 class followed by the fields, each serialised with `to_json` (the convention of every subclass); for registered
-types the registered serializer (`serialize_uuid`: the tag and the payload under `"value"`). -/
-def toJson : PyVal → Json
+types the serializer registered *now* (`serialize_uuid`: the tag and the payload under `"value"`). The result
+depends only on the structure of the value (and the registry): whether two equal sub-values are one Python object
+or two does not enter. -/
+def toJson (env : Env) : PyVal → Json
   | .none => .null
   | .bool b => .bool b
   | .int i => .int i
   | .float x => .float x
   | .str s => .str s
-  | .ext c p => .obj [(tagKey, .str c.fullName), ("value", .str p)]
-  | .list xs => .arr (toJsonList xs)
-  | .obj c fs => .obj ((tagKey, .str c.fullName) :: toJsonFields fs)
+  | .ext c p => .obj [(tagKey, .str c.fullName), (env.payloadKey c, .str p)]
+  | .list xs => .arr (toJsonList env xs)
+  | .obj c fs => .obj ((tagKey, .str c.fullName) :: toJsonFields env fs)
 /-- `[to_json(item) for item in obj]` -/
-def toJsonList : List PyVal → List Json
+def toJsonList (env : Env) : List PyVal → List Json
   | [] => []
-  | x :: xs => toJson x :: toJsonList xs
-def toJsonFields : List (String × PyVal) → List (String × Json)
+  | x :: xs => toJson env x :: toJsonList env xs
+def toJsonFields (env : Env) : List (String × PyVal) → List (String × Json)
   | [] => []
-  | (k, v) :: r => (k, toJson v) :: toJsonFields r
+  | (k, v) :: r => (k, toJson env v) :: toJsonFields env r
 end
 
 /-- `data.get(key)` on a decoded JSON object -/
@@ -301,7 +306,7 @@ inductive Err where
 mutual
 /-- module-level `from_json(data)` = `SubclassJSONSerializer.from_json(data)`; after the dispatch a
 `SubclassJSONSerializer` subclass rebuilds itself from every entry but the tag, each through `from_json`
-(the convention of every subclass); a registered deserializer reads `data["value"]`. -/
+(the convention of every subclass); the deserializer registered *now* reads the payload under its key. -/
 def fromJson (q : Quirks) (env : Env) : Json → Except Err PyVal
   | .null => .ok .none
   | .bool b => .ok (.bool b)
@@ -321,7 +326,7 @@ def fromJson (q : Quirks) (env : Env) : Json → Except Err PyVal
       | .ok fs => .ok (.obj c fs)
       | .error e => .error e
     | .dispatch c .registry =>
-      match lookup "value" kvs with
+      match lookup (env.payloadKey c) kvs with
       | some (.str p) => .ok (.ext c p)
       | _ => .error .payload
 /-- `[from_json(d) for d in data]` -/
@@ -355,7 +360,8 @@ end
 def resolvable (env : Env) (c : Cls) (ser : Bool) : Bool :=
   !c.name.toList.contains '.' && env.importModule c.module == .ok &&
   (match env.getattr c.module c.name with
-   | .cls c' ser' reg' impl' => c' == c && ser' == ser && (if ser then impl' else reg')
+   | .cls c' ser' reg' impl' =>
+     c' == c && ser' == ser && (if ser then impl' else (reg' && env.payloadKey c != tagKey))
    | _ => false)
 
 mutual
@@ -598,5 +604,137 @@ def stageTableAsFound : StageTable :=
     ⟨.registryLookup, [], none⟩,
     ⟨.checkRegistered, [], some .notDeserializable⟩,
     ⟨.callRegistry, [], none⟩ ]
+
+/-! ### Values with SHARED sub-values (C18: aliasing is irrelevant)
+
+A Python value of the grammar may reference one list object (or one serialisable object) from several places — a
+DAG, not a tree (`[[0] * 3] * 3`, `e = []; [e, e]`). `SVal` is the syntax of such values: `defn n v` is the first
+occurrence of the object labelled `n`, `ref n` a further reference to it. `expand` forgets the sharing. The model's
+`toJson` is defined on the expansion: serialisation depends only on the structure of a value. (Cyclic values have no
+`SVal`: a `ref` inside its own `defn` is unbound.) -/
+
+inductive SVal where
+  | leaf (v : PyVal)
+  | list (xs : List SVal)
+  | obj (c : Cls) (fs : List (String × SVal))
+  | defn (n : Nat) (v : SVal)
+  | ref (n : Nat)
+
+def lookupDef (n : Nat) : List (Nat × PyVal) → Option PyVal
+  | [] => none
+  | (k, v) :: r => if k = n then some v else lookupDef n r
+
+mutual
+/-- forget the sharing, in document order (`none`: a reference to an object that is not defined before it) -/
+def expand : SVal → List (Nat × PyVal) → Option (PyVal × List (Nat × PyVal))
+  | .leaf v, d => some (v, d)
+  | .list xs, d =>
+    match expandList xs d with
+    | some (ys, d') => some (.list ys, d')
+    | none => none
+  | .obj c fs, d =>
+    match expandFields fs d with
+    | some (gs, d') => some (.obj c gs, d')
+    | none => none
+  | .defn n v, d =>
+    match expand v d with
+    | some (w, d') => some (w, (n, w) :: d')
+    | none => none
+  | .ref n, d =>
+    match lookupDef n d with
+    | some w => some (w, d)
+    | none => none
+def expandList : List SVal → List (Nat × PyVal) → Option (List PyVal × List (Nat × PyVal))
+  | [], d => some ([], d)
+  | x :: xs, d =>
+    match expand x d with
+    | none => none
+    | some (y, d') =>
+      match expandList xs d' with
+      | some (ys, d'') => some (y :: ys, d'')
+      | none => none
+def expandFields : List (String × SVal) → List (Nat × PyVal) → Option (List (String × PyVal) × List (Nat × PyVal))
+  | [], d => some ([], d)
+  | (k, x) :: r, d =>
+    match expand x d with
+    | none => none
+    | some (y, d') =>
+      match expandFields r d' with
+      | some (ys, d'') => some ((k, y) :: ys, d'')
+      | none => none
+end
+
+/-- the tree a shared value stands for -/
+def SVal.tree (s : SVal) : Option PyVal := (expand s []).map (·.1)
+
+/-! ### Registry histories (C18: the round trip uses the registry as it is at the time of the call)
+
+`JSONSerializableTypeRegistry.register(type, serializer, deserializer)` may be called at any time, also again for a
+type that is already registered (the pair is replaced). A registry state is the list of registrations made so far,
+newest first; `envWith base R` is the environment the calls see in state `R`. A history is a list of operations; each
+`to_json` / `from_json` reads the state current at that moment and nothing else. -/
+
+structure Registration where
+  cls : Cls
+  key : String     -- the pair (serializer, deserializer) keeps the payload under this key
+  deriving Repr, DecidableEq
+
+abbrev RegState := List Registration
+
+def RegState.byCls (R : RegState) (c : Cls) : Option Registration := R.find? fun r => r.cls == c
+
+/-- what lookups see in registry state `R` on top of the interpreter `base` -/
+def envWith (base : Env) (R : RegState) : Env where
+  importModule := base.importModule
+  getattr := fun m n =>
+    match base.getattr m n with
+    | .cls c ser reg impl => .cls c ser (reg || (R.byCls c).isSome) impl
+    | k => k
+  payloadKey := fun c => match R.byCls c with | some r => r.key | none => base.payloadKey c
+
+mutual
+/-- `to_json` raises ClassNotSerializableError for an instance of a type without a registered serializer -/
+def serializable (env : Env) : PyVal → Bool
+  | .ext c _ => (match env.getattr c.module c.name with | .cls c' _ reg _ => c' == c && reg | _ => false)
+  | .list xs => serializableList env xs
+  | .obj _ fs => serializableFields env fs
+  | _ => true
+def serializableList (env : Env) : List PyVal → Bool
+  | [] => true
+  | x :: xs => serializable env x && serializableList env xs
+def serializableFields (env : Env) : List (String × PyVal) → Bool
+  | [] => true
+  | (_, v) :: r => serializable env v && serializableFields env r
+end
+
+inductive HOp where
+  | register (c : Cls) (key : String)       -- `JSONSerializableTypeRegistry().register(c, ser_key, deser_key)`
+  | ser (v : PyVal)                         -- `json.dumps(to_json(v))`, result not read back
+  | rt (v : PyVal)                          -- `from_json(json.loads(json.dumps(to_json(v))))`
+  | de (j : Json)                           -- `from_json(j)` of a stored document
+
+inductive HObs where
+  | done
+  | notSerializable                         -- ClassNotSerializableError
+  | serialised (j : Json)
+  | result (r : Except Err PyVal)
+
+/-- one operation in registry state `R` -/
+def stepOp (q : Quirks) (base : Env) (R : RegState) : HOp → HObs × RegState
+  | .register c key => (.done, ⟨c, key⟩ :: R)
+  | .ser v =>
+    let env := envWith base R
+    (if serializable env v then .serialised (toJson env v) else .notSerializable, R)
+  | .rt v =>
+    let env := envWith base R
+    (if serializable env v then .result (fromJson q env (toJson env v)) else .notSerializable, R)
+  | .de j => (.result (fromJson q (envWith base R) j), R)
+
+def runOps (q : Quirks) (base : Env) : List HOp → RegState → List HObs × RegState
+  | [], R => ([], R)
+  | op :: ops, R =>
+    let (o, R') := stepOp q base R op
+    let (os, R'') := runOps q base ops R'
+    (o :: os, R'')
 
 end KrroodVerif.Json
